@@ -3,6 +3,7 @@
 package flexfec
 
 import (
+	"errors"
 	"bytes"
 	"encoding/binary"
 	"encoding/json"
@@ -48,6 +49,9 @@ type vfFecBatch struct {
 	// Rebind (icpt level): before this batch the stream is bound again (no unbind): the new binding starts with an empty
 	// batch and protects exactly the packets written through it
 	Rebind bool `json:"rebind"`
+	// FailAt (icpt level): the next writer refuses the FailAt-th packet it is given during this batch (1-based, media and
+	// repair packets counted alike; 0 = none).  Every packet it was GIVEN is logged: a refused send must not cost the others.
+	FailAt int `json:"failat"`
 }
 
 type vfFecStream struct {
@@ -297,9 +301,13 @@ func vfFecRunIcpt(t *testing.T, sc *vfFecScript, out *vfWriter, concurrent bool)
 		info := &interceptor.StreamInfo{
 			SSRC: vfBE32(st.SSRC), SSRCForwardErrorCorrection: vfBE32(st.FecSSRC), PayloadTypeForwardErrorCorrection: st.FecPT,
 		}
+		failAt, nGiven := 0, 0
 		downW := interceptor.RTPWriterFunc(
 			func(hdr *rtp.Header, payload []byte, _ interceptor.Attributes) (int, error) {
 				down = append(down, vfFecRec(hdr, payload))
+				if nGiven++; nGiven == failAt {
+					return 0, errVfFecInjected
+				}
 
 				return len(payload), nil
 			})
@@ -307,13 +315,14 @@ func vfFecRunIcpt(t *testing.T, sc *vfFecScript, out *vfWriter, concurrent bool)
 		for _, b := range st.Batches {
 			recs := make([]vfM, 0, len(b.Pkts))
 			down = nil
+			failAt, nGiven = b.FailAt, 0
 			if b.Rebind {
 				writer = icpt.BindLocalStream(info, downW)
 			}
 			for j := range b.Pkts {
 				hdr, payload := vfFecBuild(t, vfBE32(st.SSRC), &b.Pkts[j])
 				recs = append(recs, vfFecRec(hdr, payload))
-				if _, werr := writer.Write(hdr, payload, interceptor.Attributes{}); werr != nil {
+				if _, werr := writer.Write(hdr, payload, interceptor.Attributes{}); werr != nil && !errors.Is(werr, errVfFecInjected) {
 					errs[idx] = werr.Error()
 
 					return
@@ -358,6 +367,8 @@ func vfFecRunIcpt(t *testing.T, sc *vfFecScript, out *vfWriter, concurrent bool)
 		t.Fatalf("VERIF-INFRA close: %v", err)
 	}
 }
+
+var errVfFecInjected = errors.New("injected downstream write failure") //nolint:gochecknoglobals
 
 // ---- growth of C14: the RFC 8627 encoder (FlexEncoder20), see spec/Trace_FlexFec20.tla --------------------------------
 
